@@ -262,6 +262,21 @@ func checkC04(c *BuildCase, sample bool) []Violation {
 		if sample && b.bytes["deb"] != nil {
 			dpkgDebAccepts(b.bytes["deb"], &vs)
 		}
+		// boundary probe: pad the description so that apk's .PKGINFO is an exact multiple of the tar block size
+		if d := b.decoded["apk"]; d != nil && len(vs) == 0 {
+			if r := len(d.ControlText) % 512; r != 0 {
+				cp := cloneCase(c)
+				cp.Meta.Description = c.Meta.Description + strings.Repeat("x", 512-r)
+				cp.Formats = []string{"apk"}
+				if out, err := cp.BuildOne(root, "apk"); err == nil {
+					if d2, err := DecodeAPK(out); err != nil {
+						vs.add("C04.decode", "apk", "with a .PKGINFO of a whole number of tar blocks: independent reader rejects the package: %v", err)
+					} else if len(d2.ControlText)%512 == 0 {
+						checkC04Format(cp, "apk", d2, out, &vs)
+					}
+				}
+			}
+		}
 		return nil
 	})
 	if err != nil {
